@@ -1805,3 +1805,21 @@ package engine
 //@   loop 2 invariant true
 //@   loop 3 invariant true
 //@   loop 4 invariant true
+
+//@ ---------------------------------------------------------------- ensure_loaded/consult: the "loaded" mark (C13, C20)
+
+//@ func (*VM).open
+//@   trusted
+//@   modifies nothing
+
+//@ func (*VM).ensureLoaded
+//@   property C13 C20
+//@   requires vm != nil
+//@   nosafety
+//@   trusted-frame
+//@   bind f, b, oerr = (*VM).open#1
+//@   bind cerr = (*VM).Compile#1
+//@   at-call (*VM).Compile#1 requires[a-file-is-marked-while-it-is-being-loaded-so-that-it-is-not-loaded-recursively] has(vm.loaded, f)
+//@   ensures[a-file-that-cannot-be-opened-is-an-error] oerr != nil ==> result == oerr
+//@   ensures[a-load-that-failed-or-was-cancelled-leaves-no-loaded-mark] called(cerr) && cerr != nil ==> result == cerr && !has(vm.loaded, f)
+//@   ensures[a-loaded-file-is-marked] called(cerr) && cerr == nil ==> result == nil
